@@ -48,7 +48,10 @@ pub const KINDS: [&str; 8] = ["plu", "sparse", "planted-zero", "triangular", "pe
 /// For float types the result may additionally be row/column scaled by exact
 /// powers of two.  The caller decides nonsingularity with its own oracle.
 pub fn gen_square<T: Elem>(src: &mut Src, n: usize) -> (M<T>, &'static str) {
-    let kind = KINDS[src.below(if T::EXACT { 6 } else { 8 }) as usize];
+    gen_square_k(src, n, if T::EXACT { 6 } else { 8 })
+}
+pub fn gen_square_k<T: Elem>(src: &mut Src, n: usize, nkinds: u32) -> (M<T>, &'static str) {
+    let kind = KINDS[src.below(nkinds) as usize];
     let z = T::from_int(0);
     let mut a: M<T> = vec![vec![z; n]; n];
     match kind {
@@ -210,4 +213,15 @@ pub fn cond_inf(a: &M<C>) -> Option<f64> {
     } else {
         None
     }
+}
+
+pub fn mat_exact<T: Elem>(a: &M<T>) -> Option<M<T::X>> {
+    a.iter().map(|r| r.iter().map(|v| v.to_exact()).collect::<Option<Vec<_>>>()).collect()
+}
+pub fn same_mat<T: Elem>(a: &M<T>, b: &M<T>) -> bool {
+    a.len() == b.len() && a.iter().zip(b).all(|(r, s)| r.len() == s.len() && r.iter().zip(s).all(|(x, y)| x.same(y)))
+}
+/// product of the row 2-norms (Hadamard bound on |det|)
+pub fn hadamard(a: &M<C>) -> f64 {
+    a.iter().map(|r| r.iter().map(|z| z.0 * z.0 + z.1 * z.1).sum::<f64>().sqrt()).product()
 }
